@@ -143,3 +143,29 @@ Fixpoint count_openers_aux (s : str) (in_single in_double : bool) (count ticks :
       else count_openers_aux r false in_double count ticks
   end.
 Definition count_openers (s : str) : nat := count_openers_aux s false false 0 0.
+
+(* _has_inert_opener: a "$(" or a backtick that quoting keeps from running now - inside single quotes, or after a
+   backslash (outside single quotes) *)
+Fixpoint inert_opener_aux (s : str) (in_single in_double : bool) {struct s} : bool :=
+  match s with
+  | [] => false
+  | c :: r =>
+      if in_single then
+        if N.eqb c 39 then inert_opener_aux r false in_double
+        else if N.eqb c 96 then true
+        else if N.eqb c 36 && (match r with d :: _ => N.eqb d 40 | [] => false end) then true
+        else inert_opener_aux r true in_double
+      else if N.eqb c 92 then
+        match r with
+        | d :: r' =>
+            if N.eqb d 96 then true
+            else if N.eqb d 36 && (match r' with e :: _ => N.eqb e 40 | [] => false end) then true
+            else inert_opener_aux r' false in_double
+        | [] => false
+        end
+      else if N.eqb c 39 && negb in_double then inert_opener_aux r true in_double
+      else if N.eqb c 34 then inert_opener_aux r false (negb in_double)
+      else inert_opener_aux r false in_double
+  end.
+Definition has_inert_opener (s : str) : bool := inert_opener_aux s false false.
+
